@@ -10,6 +10,7 @@ import AndaVerif.Proofs.EncSound
 import AndaVerif.Proofs.EncTamper
 import AndaVerif.Proofs.EncRanges
 import AndaVerif.Proofs.EncWriter
+import AndaVerif.Proofs.EncLayout
 
 namespace AndaVerif.Props.C09
 open AndaVerif.Enc AndaVerif.Gen.EncAad
@@ -289,6 +290,80 @@ theorem writes_hide_plaintext (A : AEAD) (c : Nat) (loc P P' : Bytes) (f : Fresh
     (hseal : sealChunks A f.baseNonce c 0 (chunks c P) = sealChunks A f.baseNonce c 0 (chunks c P')) :
     writeObject A c loc P f = writeObject A c loc P' f :=
   writes_hide_plaintext' A c loc P P' f hlen hseal
+
+/-! ### byte layout of the backend writes (`Model/EncLayout.lean`)
+
+Paths, ciphertext object and the sidecar document *byte for byte* (`encodeDoc`: the CBOR map serde writes,
+keys and omission rules regenerated from the serde attributes; compared with every document the real
+store writes). -/
+
+/-- Everything `put_opts` hands to the backend — both backend keys, the ciphertext object, every byte of
+the sidecar document — is `assemble` of the plaintext **length**, the AEAD outputs `(ciphertext, tag)` of
+the chunks, and the fresh values (nonces, generation, timestamp, digest): `assemble` has no plaintext
+argument.  `copy_opts` (`copyWrites`) has none by construction. -/
+theorem backend_writes_factor (A : AEAD) (c : Nat) (loc plain : Bytes) (f : Fresh) :
+    putWrites A c loc plain f =
+      assemble A c loc plain.length (sealChunks A f.baseNonce c 0 (chunks c plain)) f :=
+  putWrites_factor' A c loc plain f
+
+/-- Hence two plaintexts of equal length whose chunks seal alike give byte-identical backend writes,
+under identical backend keys. -/
+theorem backend_writes_hide_plaintext (A : AEAD) (c : Nat) (loc P P' : Bytes) (f : Fresh)
+    (hlen : P.length = P'.length)
+    (hseal : sealChunks A f.baseNonce c 0 (chunks c P) = sealChunks A f.baseNonce c 0 (chunks c P')) :
+    putWrites A c loc P f = putWrites A c loc P' f := by
+  rw [backend_writes_factor, backend_writes_factor, hlen, hseal]
+
+example : (putWrites toyAEAD 4 [97] [1, 2, 3, 4, 5] toyFreshEx).map (·.path) =
+    [[103, 101, 110, 47, 97, 47, 103], [109, 101, 116, 97, 47, 97]] := by decide
+
+example : encodeDoc forgedLegacyDoc =
+    [166, 97, 115, 0, 97, 101, 246, 97, 111, 246, 97, 118, 246, 97, 110, 76, 0, 0, 0, 0, 0, 0, 0, 0, 0, 0, 0, 0,
+     97, 116, 128] := by decide
+
+/-! ### the tamper classes of the property text, by name
+
+All of them are instances of `tamper_detected` (the backend there is arbitrary); these corollaries say
+*which* check stops each class, for every AEAD. -/
+
+/-- *Stripping authentication fields* from a sealed document (it still carries a chunk-AAD version or a
+generation pointer): rejected with "stripped metadata authentication fields", strict or not. -/
+theorem strip_auth_rejected (A : AEAD) (strict : Bool) (loc : Bytes) (m : Meta)
+    (hn : m.authNonce = none) (ht : m.authTag = none)
+    (hs : m.chunkAadVersion.isSome = true ∨ m.generation.isSome = true) :
+    verifyMetadata A strict loc m = .error .stripped :=
+  strip_auth_rejected' A strict loc m hn ht hs
+
+/-- Stripping only one of the two seal fields: rejected. -/
+theorem half_stripped_rejected (A : AEAD) (strict : Bool) (loc : Bytes) (m : Meta) :
+    (m.authNonce = none → m.authTag.isSome = true → verifyMetadata A strict loc m = .error .missingNonce) ∧
+    (m.authNonce.isSome = true → m.authTag = none → verifyMetadata A strict loc m = .error .missingTag) :=
+  half_stripped_rejected' A strict loc m
+
+/-- *Exchanging metadata documents between keys*, *re-pointing a key at another generation*, changing
+size / chunk size / tags / nonce / e_tag / commit time — any sealed document placed under another key
+or altered in any sealed field fails the GMAC check (ideal, nonce-respecting AEAD; `r` is the seal call
+that produced the document's seal). -/
+theorem modified_document_rejected (A : AEAD) (H : List SealRec) (hI : Ideal A H) (hN : NonceRespecting H)
+    (strict : Bool) (x y an at_ : Bytes) (m d : Meta)
+    (hm : m.authNonce = some an ∧ m.authTag = some at_)
+    (hfit : m.fits x = true) (hfit' : d.fits y = true)
+    (r : SealRec) (hr : r ∈ H) (hrn : r.nonce = an) (hra : r.aad = metaAad y d)
+    (hdiff : x ≠ y ∨ m.unsealed ≠ d.unsealed) :
+    verifyMetadata A strict x m = .error .authFailed :=
+  modified_document_rejected' hI hN hm hfit hfit' hr hrn hra hdiff
+
+/- swapping / reordering chunks, exchanging payload objects, truncation at and around every chunk
+boundary, extension: `stream_sound` and `tamper_detected_ranges` hold for *every* backend byte string
+under the document's generation, so each of these is the case "payload := that byte string". -/
+set_option maxRecDepth 20000 in
+example :
+    -- chunks 0 and 1 exchanged; cut exactly at the boundary of chunk 2, one byte before, one byte after
+    (decStream toyAEAD ⟨exWritten.2, 4, 0, 0⟩ 10 [[14, 15, 16, 17, 10, 11, 12, 13, 18, 19]]) = .fail .decrypt [] ∧
+    (decStream toyAEAD ⟨exWritten.2, 4, 0, 0⟩ 10 [[10, 11, 12, 13, 14, 15, 16, 17]]) = .fail .truncated [10, 11, 12, 13, 14, 15, 16, 17] ∧
+    (decStream toyAEAD ⟨exWritten.2, 4, 0, 0⟩ 10 [[10, 11, 12, 13, 14, 15, 16]]) = .fail .decrypt [10, 11, 12, 13] ∧
+    (decStream toyAEAD ⟨exWritten.2, 4, 0, 0⟩ 10 [[10, 11, 12, 13, 14, 15, 16, 17, 18]]) = .fail .decrypt [10, 11, 12, 13, 14, 15, 16, 17] := by
+  decide
 
 /-- NOT PROVED (kept as the full statement): a multipart upload, whatever the part boundaries, commits
 exactly what a single `put_opts` of the concatenated parts commits.  Multipart objects are tied to the
